@@ -302,6 +302,7 @@ func (w *world) liveSnap() snap {
 	s.Idx, s.Phase = w.sm.Idx(), w.sm.Phase()
 	s.Cur, s.CurSigs = fx.Enc(w.sm.CurrentTX().State), sigSet(w.sm.CurrentTX())
 	s.Stg, s.StgSigs = fx.Enc(w.sm.StagingTX().State), sigSet(w.sm.StagingTX())
+	s.CurSlots, s.StgSlots = slots(w.sm.CurrentTX()), slots(w.sm.StagingTX())
 	return s
 }
 
@@ -381,6 +382,14 @@ func judge(k, W int, before, after, r snap) string {
 	if r.Err != "" {
 		return "restore-error"
 	}
+	// everything but the number of signature slots agrees with an allowed state?
+	for _, a := range allowed {
+		x := r
+		x.CurSlots, x.StgSlots = a.CurSlots, a.StgSlots
+		if x == a {
+			return "signature-slot-count"
+		}
+	}
 	// everything but the staged signature slots agrees with an allowed state?
 	for _, a := range allowed {
 		x, y := r, a
@@ -432,10 +441,14 @@ type stepResult struct {
 	W             int
 	err           error
 	panicked      string
+	// copies of the live machine just before / after the operation: the reference for
+	// "continuing with the restored machine" (continued)
+	smBefore, smAfter *channel.StateMachine
 }
 
 func (w *world) step(o *op, limit int) (r stepResult) {
 	r.before = w.liveSnap()
+	r.smBefore = w.sm.Clone()
 	w.db.arm(limit)
 	func() {
 		defer func() {
@@ -449,7 +462,112 @@ func (w *world) step(o *op, limit int) (r stepResult) {
 	r.W = w.db.boundaries
 	w.db.arm(-1)
 	r.after = w.liveSnap()
+	r.smAfter = w.sm.Clone()
 	return r
+}
+
+// signOn performs the next signing operations on a machine - Sig(), then AddSig of the next
+// participant with a signature that is valid for whatever is staged - and describes what
+// happened: which call failed, the phase and the validity of every signature slot afterwards.
+// A panic is recovered and returned.
+func (w *world) signOn(m *channel.StateMachine) (outcome, panicked string) {
+	defer func() {
+		if p := recover(); p != nil {
+			panicked = fmt.Sprint(p)
+		}
+	}()
+	_, e1 := m.Sig()
+	other := (w.v.Idx + 1) % w.v.N
+	sig := wallet.Sig(bytes.Repeat([]byte{1}, 64))
+	if stg := m.StagingState(); stg != nil {
+		sig = sigOf(other, stg)
+	}
+	e2 := m.AddSig(channel.Index(other), sig)
+	return fmt.Sprintf("Sig ok=%v, AddSig(%d) ok=%v, phase=%v, staged=%s", e1 == nil, other, e2 == nil, m.Phase(), w.sigStatus(m.StagingTX())), ""
+}
+
+// continued is the second oracle of a crash point: a process that restarts does not only
+// look at what it restored, it goes on with it. The channel restored by RestoreChannel is
+// turned into a machine (channel.RestoreStateMachine) and the next signing operations are
+// performed on it; it must not panic and must behave like the live machine did in the state
+// that was restored (the copy taken just before resp. just after the interrupted operation).
+func (w *world) continued(o *op, k int, r stepResult) (clause, detail string) {
+	if w.life == lifeNone {
+		return "", ""
+	}
+	pr := keyvalue.NewPersistRestorer(w.b.reopen())
+	var ch *persistence.Channel
+	var got snap
+	func() {
+		defer func() {
+			if p := recover(); p != nil {
+				got = snap{Err: fmt.Sprintf("panic: %v", p)}
+			}
+		}()
+		c, err := pr.RestoreChannel(ctx, w.params.ID())
+		if err != nil {
+			got = snap{Absent: true}
+			return
+		}
+		ch, got = c, snapOf(c, c.PeersV, c.Parent)
+	}()
+	if ch == nil {
+		return "", "" // nothing restored (judged by the first oracle)
+	}
+	var ref *channel.StateMachine
+	switch {
+	case got == r.after:
+		ref = r.smAfter.Clone()
+	case k < r.W && got == r.before:
+		ref = r.smBefore.Clone()
+	}
+	finding := func(cl, format string, a ...interface{}) {
+		clause = cl
+		detail = fmt.Sprintf("%s interrupted after %d of %d write boundaries: ", o.name, k, r.W) + fmt.Sprintf(format, a...) + fmt.Sprintf("\n  restored = %v", got)
+	}
+	var m *channel.StateMachine
+	var err error
+	func() {
+		defer func() {
+			if p := recover(); p != nil {
+				err = fmt.Errorf("PANIC: %v", p)
+			}
+		}()
+		m, err = channel.RestoreStateMachine(accMap(w.v.Idx), ch)
+	}()
+	if err != nil {
+		finding("restored-machine-not-built", "channel.RestoreStateMachine refuses what RestoreChannel yields: %v", err)
+		return
+	}
+	res, panicked := w.signOn(m)
+	if panicked != "" {
+		finding("restored-machine-panics", "the machine built from what RestoreChannel yields panics in Sig / AddSig: %s", panicked)
+		return
+	}
+	if ref != nil {
+		if want, p := w.signOn(ref); p == "" && want != res {
+			finding("restored-machine-diverges", "the machine built from what RestoreChannel yields does not go on like the live machine in the restored state\n  live machine:     %s\n  restored machine: %s", want, res)
+		}
+	}
+	return
+}
+
+// pathContinued is the key of the second oracle in the origin table of build.
+const pathContinued = "continued"
+
+// continuedFindings wraps continued into a finding; like the restore paths, a failure that the
+// store already showed at rest before the operation is attributed to the operation after
+// which it first appeared.
+func (w *world) continuedFindings(o *op, k int, r stepResult, org map[string]origin) []c10Finding {
+	cl, detail := w.continued(o, k, r)
+	if cl == "" {
+		return nil
+	}
+	site, inh := opKind(o.name), false
+	if og, ok := org[pathContinued]; ok && og.Clause == cl {
+		site, inh = og.Op, true
+	}
+	return []c10Finding{{fmt.Sprintf("C10:%s:%s/RestoreChannel", cl, site), detail, inh}}
 }
 
 type origin struct{ Op, Clause string }
@@ -485,6 +603,15 @@ func build(v variant, backend string, all []op, h []int, atRest bool, trace func
 			if cl != "" {
 				line += fmt.Sprintf("  [%s at rest: %s since %s]", p, cl, org[p].Op)
 			}
+		}
+		switch cl, _ := w.continued(&all[k], r.W, r); {
+		case cl == "":
+			delete(org, pathContinued)
+		case org[pathContinued].Clause != cl:
+			org[pathContinued] = origin{opKind(all[k].name), cl}
+			fallthrough
+		default:
+			line += fmt.Sprintf("  [restored machine at rest: %s since %s]", cl, org[pathContinued].Op)
 		}
 		if trace != nil {
 			trace(line)
@@ -650,7 +777,7 @@ func c10Search(t *testing.T, res *report.Result, v variant, deadline time.Time) 
 				if r.W > 0 {
 					res.Count("distinct_nontrivial", 1)
 				}
-				for _, f := range verdicts(o, r.W, r, cur.observe(), org) {
+				for _, f := range append(verdicts(o, r.W, r, cur.observe(), org), cur.continuedFindings(o, r.W, r, org)...) {
 					violate(f, "memorydb", h, o, r.W)
 				}
 				for k := 0; k < r.W; k++ { // the crash points inside the operation
@@ -661,7 +788,7 @@ func c10Search(t *testing.T, res *report.Result, v variant, deadline time.Time) 
 					}
 					res.Count("evaluations", 1)
 					res.Count("distinct_nontrivial", 1)
-					for _, f := range verdicts(o, k, r2, w2.observe(), org) {
+					for _, f := range append(verdicts(o, k, r2, w2.observe(), org), w2.continuedFindings(o, k, r2, org)...) {
 						violate(f, "memorydb", h, o, k)
 					}
 					w2.close()
@@ -806,7 +933,7 @@ func c10ReplayRun(t *testing.T, res *report.Result, rp c10Replay) {
 	for _, k := range keys {
 		fmt.Printf("    %s = %d bytes\n", printable(k, nm), len(kv[k]))
 	}
-	fs := verdicts(o, min(rp.CrashK, r2.W), r2, obs, org)
+	fs := append(verdicts(o, min(rp.CrashK, r2.W), r2, obs, org), w2.continuedFindings(o, min(rp.CrashK, r2.W), r2, org)...)
 	if r2.panicked != "" {
 		res.Violate("C10", "C10:panic:"+opKind(o.name), o.name+" panicked: "+r2.panicked, rp)
 	}
